@@ -106,6 +106,7 @@ type Exec struct {
 	params  map[string]Value
 	couplingsUsed map[string]bool
 	refineNotes   map[string]bool
+	refineGaps    map[string]int // interface contract -> clauses that could not be read through the coupling
 
 	ordinals map[string]int
 	instrOrd map[instrKind]string
@@ -164,7 +165,7 @@ func NewExec(p *Prog, fn *ssa.Function, c *Contract) *Exec {
 		inlined: map[string]bool{}, byContr: map[string]bool{}, intrUsed: map[string]bool{}, unspec: map[string]bool{},
 		specFns: map[string]bool{}, maxPaths: 4000,
 		errDyn: map[string]types.Type{}, freshRegs: map[*Region]bool{}, regionAlias: map[*Region]*Region{}, skippedEnsures: map[string]bool{}, stale: map[string]bool{}, strTags: map[string]string{}, strElems: map[string]VStr{}, objTags: map[*Object]string{}, litOfRegion: map[*Region]string{}, anyElems: map[string]Value{}, zeroObjs: map[*Object]Value{},
-		allRegs: map[string]*Region{}, boundedLoops: map[string]bool{}, noInvLoops: map[string]bool{}, couplingsUsed: map[string]bool{}, refineNotes: map[string]bool{},
+		allRegs: map[string]*Region{}, boundedLoops: map[string]bool{}, noInvLoops: map[string]bool{}, couplingsUsed: map[string]bool{}, refineNotes: map[string]bool{}, refineGaps: map[string]int{},
 	}
 	return e
 }
